@@ -26,36 +26,103 @@ def arg_of(t):
     return args.pop() if len(args) == 1 else None
 
 
+def _closure_in(F, t):
+    cl = [x for x in walk(simp(t)) if x and x[0] == "agg" and x[1][0] == "closure" and x[1][1] in F.fns]
+    return F.fns[cl[0][1][1]] if len(cl) == 1 else None
+
+
+def _try_for_each_pairs(F, g):
+    """g returns  LIST.iter().try_for_each(|a| LIST.iter().filter(|b| a != b).try_for_each(|b| verify_no_overlap_contiguous(a, b)))  and nothing else."""
+    rts = [simp(t) for b_, t, g_ in ret_table(g)]
+    tfe = [t for t in rts if t and t[0] == "call" and last_seg(t[1] or "") == "try_for_each"]
+    # other returns may only propagate the error of an earlier check (`earlier_check(..)?`)
+    if len(tfe) != 1 or any("verify_" not in show(t) for t in rts if t is not tfe[0]):
+        return False
+    t = tfe[0]
+    if not (t and t[0] == "call" and last_seg(t[1] or "") == "try_for_each" and len(t[3]) == 2):
+        return False
+    outer_list = show(simp(t[3][0]))
+    m = re.match(r"^\[T\]::iter\((.*)\)$", outer_list)
+    c1 = _closure_in(F, t[3][1])
+    if m is None or c1 is None:
+        return False
+    r1 = [simp(x) for _, x in c1.flow.return_trees()]
+    if len(r1) != 1 or not (r1[0] and r1[0][0] == "call" and last_seg(r1[0][1] or "") == "try_for_each" and len(r1[0][3]) == 2):
+        return False
+    inner = simp(r1[0][3][0])
+    if not (inner and inner[0] == "call" and last_seg(inner[1] or "") == "filter" and len(inner[3]) == 2 and re.match(r"^\[T\]::iter\(\**upvar\(\w+\)\)$", show(simp(inner[3][0])))):
+        return False
+    from .bitiso import upvar_tree
+    um = re.match(r"^\[T\]::iter\(\**upvar\((\w+)\)\)$", show(simp(inner[3][0])))
+    _, ut = upvar_tree(F, c1, um.group(1))
+    if ut is None or show(simp(ut)).lstrip("&*") != m.group(1).lstrip("&*"):
+        return False      # the inner iteration must range over the same list as the outer one
+    cne = _closure_in(F, inner[3][1])
+    c2 = _closure_in(F, r1[0][3][1])
+    if cne is None or c2 is None:
+        return False
+    rne = [show(simp(x)) for _, x in cne.flow.return_trees()]
+    if not (len(rne) == 1 and re.search(r"::ne\(.*upvar\(\w+\).*, .*arg2.*\)$|::ne\(.*arg2.*, .*upvar\(\w+\).*\)$", rne[0])):
+        return False
+    r2 = [show(simp(x)) for _, x in c2.flow.return_trees()]
+    return len(r2) == 1 and re.match(r"^sanity::verify_no_overlap_contiguous\(\**upvar\(\w+\), \**arg2\)$", r2[0]) is not None
+
+
 def run(ctx, F):
     f = F.fn(SAN + "verify_no_overlap_contiguous")
     ges = [c for c in live_calls(f) if c.name in ("ge", "lt", "le", "gt") and c.trait and "PartialOrd" in c.trait]
     ctx.judge(len(ges) == 2, "C25.interval-form", "two start>=end comparisons", expected="2 PartialOrd comparisons", found=str([c.name for c in ges]), where=where(f),
               key="C25.interval-form|count")
     seen = set()
+    witness = {}   # comparison call name+line -> the truth value under which it proves "range i starts at/after the end of range j"
+
+    def start_of(t):
+        t = strip(t)
+        i = arg_of(t)
+        return i if (t and t[0] == "call" and last_seg(t[2] or t[1] or "") == "get_starting_address" and i is not None) else None
+
+    def end_of(t):
+        adds = [x for x in [strip(t)] if x and x[0] == "call" and isinstance(x[1], str) and last_seg(x[1]) == "add"]
+        if not adds:
+            return None
+        base, size = strip(adds[0][3][0]), strip(adds[0][3][1])
+        bi, si = start_of(base), arg_of(size)
+        if bi is not None and bi == si and tree_calls(size, name="metadata_address_range_size"):
+            return bi
+        return None
+
     for c in ges:
         lhs = strip(f.flow.arg_tree(c, 0))
         rhs = strip(f.flow.arg_tree(c, 1))
-        li = arg_of(lhs)
-        okl = bool(tree_calls(lhs, name="get_starting_address")) and li is not None
-        adds = [s for s in walk(rhs) if s and s[0] == "call" and isinstance(s[1], str) and last_seg(s[1]) == "add"]
-        okr = False
-        detail = show(rhs)
-        if adds:
-            a = adds[0]
-            base, size = strip(a[3][0]), strip(a[3][1])
-            bi, si = arg_of(base), arg_of(size)
-            okr = (bool(tree_calls(base, name="get_starting_address")) and bool(tree_calls(size, name="metadata_address_range_size"))
-                   and bi is not None and bi == si and li is not None and bi != li)
-            seen.add((li, bi))
-        ctx.judge(c.name == "ge" and okl and okr, "C25.interval-form", "comparison at line %s has the form start(a) >= start(b) + size(b)" % c.line,
-                  expected="lhs = spec_i.get_starting_address(); rhs = spec_j.get_starting_address() + metadata_address_range_size(spec_j), i != j",
-                  found="%s %s %s" % (show(lhs), c.name, detail), where=where(f, c.line), key="C25.interval-form|shape")
+        form = None
+        if start_of(lhs) is not None and end_of(rhs) is not None and c.name in ("ge", "lt"):
+            form = (start_of(lhs), end_of(rhs), c.name == "ge")          # start_i >= end_j  /  !(start_i < end_j)
+        elif end_of(lhs) is not None and start_of(rhs) is not None and c.name in ("le", "gt"):
+            form = (start_of(rhs), end_of(lhs), c.name == "le")          # end_j <= start_i  /  !(end_j > start_i)
+        okf = form is not None and form[0] != form[1]
+        if okf:
+            seen.add((form[0], form[1]))
+            witness[c.bb] = form[2]
+        ctx.judge(okf, "C25.interval-form", "comparison at line %s has the form start(a) >= start(b) + size(b)" % c.line,
+                  expected="start_i >= start_j + metadata_address_range_size(spec_j), i != j (or the equivalent <, <=, > form with the matching polarity)",
+                  found="%s %s %s" % (show(lhs), c.name, show(rhs)), where=where(f, c.line), key="C25.interval-form|shape")
     ctx.judge(seen == {(1, 2), (2, 1)}, "C25.interval-form", "both directions are compared", expected="{spec_1 vs end_2, spec_2 vs end_1}", found=str(sorted(seen)), where=where(f),
               key="C25.interval-form|both")
     rows = ret_table(f)
     errs = [(b, t, g) for b, t, g in rows if "Err" in show(t)]
-    oke = len(errs) == 1 and sum(1 for p in errs[0][2] if "PartialOrd::ge" in show(p.tree) and p.val is False) == 2
-    ctx.judge(oke, "C25.interval-form", "Err exactly when neither range starts at/after the other's end", expected="Err guarded by ge(..)==false for both comparisons",
+
+    def refuted(g):
+        """number of the two comparisons that, on this path, say "range i does NOT start at/after the end of range j" """
+        n = 0
+        for c in ges:
+            cs = show(strip(f.flow.call_tree(c.bb, f.blocks[c.bb]["t"])))
+            for p in g:
+                if show(strip(p.tree)) == cs and c.bb in witness and p.val is (not witness[c.bb]):
+                    n += 1
+                    break
+        return n
+    oke = len(errs) == 1 and len(ges) == 2 and refuted(errs[0][2]) == 2
+    ctx.judge(oke, "C25.interval-form", "Err exactly when neither range starts at/after the other's end", expected="Err guarded by the negation of both disjointness comparisons",
               found=str([sorted("%s==%s" % (show(p.tree)[:60], p.val) for p in g) for b, t, g in errs])[:400], where=where(f), key="C25.interval-form|err")
     oks = [(b, t, g) for b, t, g in rows if "Ok" in show(t)]
     ctx.judge(bool(oks), "C25.interval-form", "disjoint pairs are accepted", expected="an Ok(()) return", found=str([show(t) for b, t, g in rows]), where=where(f),
@@ -65,6 +132,13 @@ def run(ctx, F):
     for q in (SAN + "verify_global_specs", SAN + "SideMetadataSanity::verify_local_specs"):
         g = F.fn(q)
         vs = live_calls(g, q=SAN + "verify_no_overlap_contiguous")
+        if not vs and _try_for_each_pairs(F, g):
+            # the nested loops written as iterator adaptors: xs.iter().try_for_each(|a| xs.iter().filter(|b| a != b).try_for_each(|b| check(a, b)))
+            ctx.ok("C25.all-pairs", "%s calls the overlap predicate" % last_seg(q), "try_for_each nest over the same list, filtered by a != b, result returned", where(g))
+            ctx.ok("C25.all-pairs", "%s checks every ordered pair of distinct specs" % last_seg(q), "try_for_each nest", where(g))
+            ctx.ok("C25.all-pairs", "%s: both loops range over the same spec list" % last_seg(q), "try_for_each nest", where(g))
+            ctx.ok("C25.all-pairs", "%s propagates an overlap error" % last_seg(q), "the Result of the outer try_for_each is the function's result", where(g))
+            continue
         ctx.judge(len(vs) == 1, "C25.all-pairs", "%s calls the overlap predicate" % last_seg(q), expected="one call site in a nested loop", found=str(len(vs)), where=where(g),
                   key="C25.all-pairs|site|" + q)
         for c in vs:
